@@ -4,6 +4,7 @@ import MosnVerif.Lemmas.TlsUpdate
 import MosnVerif.Model.TlsTrust
 import MosnVerif.Model.TlsConnect
 import MosnVerif.Lemmas.TlsSds
+import MosnVerif.Lemmas.TlsShare
 import MosnVerif.Lemmas.TlsAccept
 /-!
 # C13 — TLS policy is enforced as configured (property theorems only)
@@ -195,7 +196,7 @@ theorem wildcard_labels (suf h : Name) (fuel : Nat) :
 
 /-- never a partial label, never the bare suffix: if the host is `pre ++ suffix` where `pre` does not end in a dot
 (`pre` empty = the bare suffix; `xa.com` against `*.a.com`), the key `*.suffix` does not match it. -/
-theorem wildcard_never_partial_label (suf pre h : Name) (fuel : Nat) (e : normSni h = pre ++ suf)
+theorem wildcard_never_inside_a_label (suf pre h : Name) (fuel : Nat) (e : normSni h = pre ++ suf)
     (hp : ¬ ∃ p, pre = p ++ ['.']) :
     Gen.TlsMatch.matchedServerName ['*' :: '.' :: suf] h fuel = false := by
   rw [Bool.eq_false_iff, Ne, gen_matchedServerName_eq_model, matchedServerName_iff]
@@ -211,7 +212,7 @@ theorem wildcard_never_partial_label (suf pre h : Name) (fuel : Nat) (e : normSn
 
 theorem wildcard_never_bare_suffix (suf h : Name) (fuel : Nat) (e : normSni h = suf) :
     Gen.TlsMatch.matchedServerName ['*' :: '.' :: suf] h fuel = false :=
-  wildcard_never_partial_label suf [] h fuel (by simpa using e) (by rintro ⟨p, hp⟩; simp at hp)
+  wildcard_never_inside_a_label suf [] h fuel (by simpa using e) (by rintro ⟨p, hp⟩; simp at hp)
 
 /-- **client_auth_table**: verify_client / require_client_cert ↦ tls.ClientAuthType, all four combinations, with the
 numeric values of crypto/tls. -/
@@ -262,7 +263,7 @@ theorem no_plaintext_without_inspector (peekFailed : Bool) (b : Nat) :
 
 /-- **spec_holds_on_model**: the executable predicates the driver evaluates on implementation outputs hold of the
 model's outputs, for every input (`auth`, `trust`, `cv`; `trustc` for a ready provider; `insp` for a listener that is
-either TCP with a ready context or in inspector mode — the complement is `passthrough_partial`); for
+either TCP with a ready context or in inspector mode — see `plaintext_only_when_inspector_allows` and its exceptions); for
 `sel`/`hs`/`msn`/`mal` this is `select_statement` under `NamespacesApart`. -/
 theorem spec_holds_on_model :
     (∀ req ver, getClientAuth req ver = specClientAuth req ver) ∧
@@ -280,13 +281,51 @@ theorem spec_holds_on_model :
     cases tcp <;> cases cfgd <;> cases en <;> cases ins <;> cases pf <;> by_cases h : b = 22 <;>
       simp_all [connDecision, specConn, servesPlain, specPlain]
 
-/-- **passthrough_partial**: what `Conn` does outside "TCP connection, some context ready": the connection is returned
-untouched. FULL STATEMENT (fails, see the witnesses and KNOWN_FINDINGS): a listener with TLS contexts never serves
-plaintext without inspector mode — MOSN does, while no context is ready (sds secret pending) or when the transport is
-not TCP (unix socket listener); likewise an upstream connection stays in plaintext while its provider is not ready. -/
-theorem passthrough_partial (tcp en ins pf : Bool) (b : Nat) (h : tcp = false ∨ en = false) :
+/-- **plaintext_only_when_inspector_allows**: the FULL statement "plaintext is served on a TLS listener only when inspector
+mode allows it", for every connection of a listener with TLS contexts, every inspector flag, every outcome of the peek
+and every first byte — under the one hypothesis `ReadyTcp` (the connection is TCP and some context is ready): plaintext
+is served iff inspector mode is on, the first byte could be read and is not 0x16; and the driver's predicate `specConn`
+holds of the regenerated decision. Outside `ReadyTcp` lie the two recorded findings (no context ready: sds secret
+pending; transport not TCP), machine-checked in `plaintext_exception_pending` / `plaintext_exception_not_tcp`. -/
+theorem plaintext_only_when_inspector_allows (tcp en ins pf : Bool) (b : Nat) (h : ReadyTcp tcp en) :
+    (servesPlain (connDecision tcp en ins pf b) = true ↔ (ins = true ∧ pf = false ∧ b ≠ 0x16)) ∧
+    specConn tcp true en ins pf b (connDecision tcp en ins pf b) = true := by
+  obtain ⟨ht, he⟩ := h
+  subst ht; subst he
+  cases ins <;> cases pf <;> by_cases hb : b = 22 <;> simp [connDecision, servesPlain, specConn, specPlain, hb]
+
+/-- what `Conn` does outside `ReadyTcp` (the code, described completely): the connection is returned untouched. -/
+theorem passthrough_outside_ready_tcp (tcp en ins pf : Bool) (b : Nat) (h : ¬ ReadyTcp tcp en) :
     connDecision tcp en ins pf b = ConnResult.raw := by
+  unfold ReadyTcp at h
   cases tcp <;> cases en <;> simp_all [connDecision]
+
+/-- the exception, machine-checked (1): a listener with TLS contexts whose contexts are all pending serves plaintext on a
+TCP connection although inspector mode is off (finding `insp … pending`). -/
+theorem plaintext_exception_pending :
+    ∃ tcp en ins pf b, ¬ ReadyTcp tcp en ∧ tcp = true ∧ ins = false ∧ servesPlain (connDecision tcp en ins pf b) = true ∧
+      specConn tcp true en ins pf b (connDecision tcp en ins pf b) = false :=
+  ⟨true, false, false, false, 0x47, by decide, rfl, rfl, by decide, by decide⟩
+
+/-- the exception, machine-checked (2): on a transport that is not TCP plaintext is served with a ready context and
+inspector mode off (finding `insp … nontcp`). -/
+theorem plaintext_exception_not_tcp :
+    ∃ tcp en ins pf b, ¬ ReadyTcp tcp en ∧ en = true ∧ ins = false ∧ servesPlain (connDecision tcp en ins pf b) = true ∧
+      specConn tcp true en ins pf b (connDecision tcp en ins pf b) = false :=
+  ⟨false, true, false, false, 0x47, by decide, rfl, rfl, by decide, by decide⟩
+
+/-- **upstream_tls_unless_pending**: the upstream side of the same clause: with a ready provider the upstream connection is
+never left in plaintext and succeeds exactly per the statement's table; the exception (provider pending: plaintext,
+finding `trustc pending`) is machine-checked in `upstream_exception_pending`. -/
+theorem upstream_tls_unless_pending (hook ins sn : Bool) (s : ServerCert) (hok : Bool) :
+    clientConn true hook ins sn s hok ≠ ClientResult.notls ∧
+    specClientConn hook ins sn s hok (clientConn true hook ins sn s hok) = true := by
+  cases hook <;> cases ins <;> cases sn <;> cases s <;> cases hok <;> decide
+
+theorem upstream_exception_pending :
+    ∃ hook ins sn s hok, clientConn false hook ins sn s hok = ClientResult.notls ∧
+      specClientConn hook ins sn s hok (clientConn false hook ins sn s hok) = false :=
+  ⟨false, false, true, .selfSigned, false, by decide, by decide⟩
 
 def exA : Ctx := ⟨true, "a.com".toList, ["*.a.com".toList], "h2".toList, []⟩
 def exB : Ctx := ⟨true, [], ["b.org".toList], "http/1.1,h2".toList, "b.org".toList⟩
@@ -753,6 +792,91 @@ example :
     specListenerObs (specCtx ⟨false, false, []⟩ none ops) sdsCN .none = some (some 1, false) ∧
     ((ops ++ [SOp.pushEmpty]).foldl stepTemplateOnly (create (⟨false, false, []⟩ : LPol) none true)).ctx = some ((⟨true, true, []⟩ : LPol), 1) := by decide
 end SdsUpdate
+/-! ## sds contexts that share secret names (pkg/mtls/tls_context_manager.go, secret_manager.go; `Gen/TlsShare.lean`)
+
+The provider cache is keyed by (validation secret name, certificate secret name, index); `Gen.TlsShare.serverIndex` is the
+index `NewTLSServerContextManager` gives the context at a position of a listener (regenerated), `cacheKey` the regenerated
+key. -/
+section SharedSecrets
+open MosnVerif.Model.TlsShare MosnVerif.Lemmas.TlsShare MosnVerif.Gen.TlsShare
+
+/-- **provider_index_injective**: the regenerated provider index determines listener name AND position: no two contexts of
+one listener, and no two listeners, share a provider index; a cluster's index is never a listener's. -/
+theorem provider_index_injective (name name' : Name) (n n' : Nat) :
+    (serverIndex name n = serverIndex name' n' → name = name' ∧ n = n') ∧
+    (∀ c, clientIndex c ≠ serverIndex name n) ∧ (∀ c c', clientIndex c = clientIndex c' → c = c') :=
+  ⟨serverIndex_injective name name' n n', fun c => clientIndex_ne_serverIndex c name n, clientIndex_injective⟩
+
+/-- **update_policy_current_shared** (`update_policy_current` / `sds_context_follows_latest_config` for contexts that share
+secret names): after ANY history of listener builds (any listeners, any context lists, contexts naming the same or
+different certificate / validation secrets in any pattern, static contexts in between), cluster builds and secret
+deliveries, the tls context in force at EVERY position of the latest build of a listener is built from THAT position's
+own configuration and the latest complete secret of the names it uses — never from another context's configuration. -/
+theorem update_policy_current_shared {κ : Type} (ops : List (COp κ)) (name : Name) (cs : List (Option (SCtx κ)))
+    (h : lastBuild ops name = some cs) (i : Nat) (c : SCtx κ) (hc : cs[i]? = some (some c)) :
+    ctxAt (run ops) name i c.ref = specCtxAt (run ops) c := by
+  obtain ⟨h1, h2⟩ := foldl_inv ops _ _ (empty_inv (κ := κ))
+  obtain ⟨p, hp, hcfg⟩ := h2 name cs h i c hc
+  obtain ⟨hco, hsec, _⟩ := h1 _ p hp
+  unfold ctxAt specCtxAt
+  show (((run ops).provs (serverKey name i c.ref)).bind (·.ctx)) = _
+  unfold run
+  rw [hp]
+  simp only [Option.bind_some]
+  rw [hco, hsec, hcfg, pemOf_serverKey]
+
+/-- the contexts the live manager selects among ARE the configured ones, each with its own configuration. -/
+theorem manager_view_is_configured (names : Name → Nat → Name × List Name) (statics : Nat → Ctx) (ops : List (COp LCfg))
+    (name : Name) (cs : List (Option (SCtx LCfg))) (h : lastBuild ops name = some cs) :
+    managerView names statics (run ops) name cs = specView names statics (run ops) cs := by
+  unfold managerView specView
+  apply viewFrom_congr
+  intro i c hc
+  simp only [Nat.zero_add]
+  rw [update_policy_current_shared ops name cs h i c hc]
+
+/-- **select_statement_shared**: `select_statement` for a listener whose sds contexts share secret names in any pattern:
+the regenerated `GetConfigForClient`, run on the providers the live manager holds, selects by the statement's rule among
+the CONFIGURED contexts (own server_name / alpn, the certificate names of the latest secret; not ready while the secret
+is incomplete), under `NamespacesApart`. -/
+theorem select_statement_shared (names : Name → Nat → Name × List Name) (statics : Nat → Ctx) (ops : List (COp LCfg))
+    (name : Name) (cs : List (Option (SCtx LCfg))) (h : lastBuild ops name = some cs)
+    (sni : Name) (protos : List Name) (fuel : Nat)
+    (hns : NamespacesApart (specView names statics (run ops) cs) sni protos) :
+    Gen.TlsMatch.getConfigForClient (provs (managerView names statics (run ops) name cs) 0) sni protos fuel =
+      ofOpt (specSelect (specView names statics (run ops) cs) sni protos) := by
+  rw [manager_view_is_configured names statics ops name cs h]
+  exact select_statement _ sni protos fuel hns
+
+/-- **client_auth_table_shared**: `client_auth_table` for such a listener: the ClientAuthType in force at every position is
+the statement's table on THAT position's verify_client / require_client_cert (once its secret is complete). -/
+theorem client_auth_table_shared (ops : List (COp LCfg)) (name : Name) (cs : List (Option (SCtx LCfg)))
+    (h : lastBuild ops name = some cs) (i : Nat) (c : SCtx LCfg) (hc : cs[i]? = some (some c)) :
+    authOf (ctxAt (run ops) name i c.ref) =
+      (pemSecret (run ops) (c.ref.val, c.ref.cert)).map (fun _ => specClientAuth c.cfg.require c.cfg.verify) := by
+  rw [update_policy_current_shared ops name cs h i c hc]
+  unfold specCtxAt
+  cases pemSecret (run ops) (c.ref.val, c.ref.cert) with
+  | none => rfl
+  | some s => simp [authOf, client_auth_table]
+
+def shA : SCtx LCfg := ⟨⟨true, true, "a.com".toList, []⟩, ⟨"rootca".toList, "default".toList⟩⟩
+def shB : SCtx LCfg := ⟨⟨false, false, "b.org".toList, "h2".toList⟩, ⟨"rootca".toList, "default".toList⟩⟩
+def shNames : Name → Nat → Name × List Name := fun c _ => (c, [c])
+def shOps : List (COp LCfg) := [.build "l".toList [some shA, none, some shB] true, .complete ("rootca".toList, "default".toList) 1,
+  .build "m".toList [some shB] true, .complete ("rootca".toList, "default".toList) 2]
+-- two contexts of ONE listener naming the same secrets keep their own policies; a later listener and a rotation do not disturb them
+example : lastBuild shOps "l".toList = some [some shA, none, some shB] := by decide
+example : ctxAt (run shOps) "l".toList 0 shA.ref = some (shA.cfg, 2) ∧ ctxAt (run shOps) "l".toList 2 shB.ref = some (shB.cfg, 2) := by decide
+example : authOf (ctxAt (run shOps) "l".toList 0 shA.ref) = some 4 ∧ authOf (ctxAt (run shOps) "l".toList 2 shB.ref) = some 0 := by decide
+example : serverIndex "l".toList 12 = "server_12_l".toList ∧ clientIndex "c".toList = "client_c".toList := by decide
+-- NEGATION WITNESS (the repaired defect: every context of a listener had the index server_<listener>): two contexts behind
+-- ONE cache key — the configuration of the last one is the configuration of both
+example : ((addOrUpdate (addOrUpdate (Cache.empty : Cache LCfg) (cacheKey shA.ref.val shA.ref.cert "server_l".toList) shA.cfg true)
+    (cacheKey shB.ref.val shB.ref.cert "server_l".toList) shB.cfg true).provs (cacheKey shA.ref.val shA.ref.cert "server_l".toList)).map (·.config) =
+    some shB.cfg := by decide
+end SharedSecrets
+
 /-! ## the accept path with use_original_dst (pkg/server/handler.go, originaldst listener filter; `Gen/TlsAccept.lean`) -/
 section AcceptPath
 open MosnVerif.Model.TlsAccept MosnVerif.Lemmas.TlsAccept MosnVerif.Gen.TlsAccept MosnVerif.Gen.TlsConnect
